@@ -51,6 +51,20 @@ CHECKS = {
              "semantics validated by correspondence. Partial: 'every tuple inside the bounds is generated' (completeness "
              "of the grid with step-wise truncation) and fractional norms .5/.8 rest on the exhaustive correspondence "
              "against an exact harness oracle on the stated finite domain, not on a theorem."),
+    "C07": dict(
+        technique="Coq proof (ssrnum, last-write-wins lemma): each comparison loop = lexicographic comparison of the "
+                  "coefficient vectors read in descending monomial order; trichotomy, complements, transitivity; bridge "
+                  "lemmas over loops regenerated from the eight source files; universe/random pairs and triples on /repo",
+        text="Theorems (Props/P_C07.v) over any ordered ring: on the aligned operands (which denote the inputs) the "
+             "verdicts of < > <= >= are lexlt / its negation on the coefficient vectors sorted from the largest monomial "
+             "down (graded/reverse per the sort options), == is vector equality and implies equal polynomials, != its "
+             "negation; exactly one of <,==,> holds; the order on vectors is transitive and asymmetric; maximum/minimum "
+             "return the larger/smaller operand. Bridge lemmas: the init comparison, loop comparison and mask of each "
+             "source file are the ones assumed (mask proved equivalent to 'coefficients differ' by case analysis).",
+        note="Trusted: Coq kernel+VM, MathComp; translator compare_tr.py. Partial: transitivity/antisymmetry are proved "
+             "for vectors over ONE common alignment; that the verdict does not depend on which alignment (pairwise vs "
+             "three-way, extra zero terms, extra names) is validated by the triple tests on /repo, not yet by a theorem. "
+             "'== implies identical' is proved; the converse needs monomial independence (planned). Complex/NaN excluded."),
 }
 
 
